@@ -48,6 +48,7 @@ type pathState struct {
 	strBudgetV  int
 	side        map[any]any // per-path side tables (mutex state, builders, ...)
 	stubs       map[string]bool
+	named       map[string]*Term
 	observations []string
 }
 
@@ -571,7 +572,7 @@ func (w *worker) runPath(h *HarnessSpec, fn *ssa.Function, it workItem) {
 	p := &pathState{
 		w: w, prefix: it.prefix,
 		inputSorts: map[string]Sort{}, choices: map[string]int{}, fresh: map[string]int{},
-		side: map[any]any{}, stubs: map[string]bool{},
+		side: map[any]any{}, stubs: map[string]bool{}, named: map[string]*Term{},
 	}
 	m.path = p
 	m.fuel = h.fuel()
